@@ -623,8 +623,6 @@ class PDA:
         """
         pda = PDA()
         for s_from in graph:
-            if isinstance(s_from, str) and s_from.startswith("starting_"):
-                continue
             for s_to in graph[s_from]:
                 for transition in graph[s_from][s_to].values():
                     if "label" in transition:
@@ -640,6 +638,10 @@ class PDA:
                                            s_to,
                                            stack_to)
         for node in graph.nodes:
+            if "is_start" in graph.nodes[node]:
+                # A state, even without transition
+                # pylint: disable=protected-access
+                pda.states.add(pda._pda_obj_creator.to_state(node))
             if graph.nodes[node].get("is_start", False):
                 pda.set_start_state(node)
             if graph.nodes[node].get("is_final", False):
